@@ -204,7 +204,9 @@ pub fn emit_module(d: &Decl) -> String {
     if d.auto_flush {
         s.push_str(&format!("lazy_static! {{\n    pub static ref VEC: {} = {};\n", vec_ty, mk_vec));
         let dur = if d.flush_every_update { "std::time::Duration::from_secs(0)" } else { "std::time::Duration::from_secs(3600)" };
-        s.push_str(&format!("    pub static ref M: S = auto_flush_from!(VEC, S, {});\n}}\n\n", dur));
+        s.push_str(&format!("    pub static ref M: S = auto_flush_from!(VEC, S, {});\n", dur));
+        s.push_str("    pub static ref INNER_HANDLE: S = S::from(&INNER);\n}\n");
+        s.push_str("thread_local! {\n    pub static INNER: SInner = SInner::from(&VEC);\n}\n\n");
     }
     s.push_str("pub fn run() -> Vec<String> {\n    let mut fails: Vec<String> = vec![];\n");
     if d.auto_flush {
@@ -314,6 +316,26 @@ pub fn emit_module(d: &Decl) -> String {
         }
         s.push_str("    }).join().unwrap();\n");
     }
+    // the per-thread struct of local metrics (`SInner`: public fields, public flush) is part of what the macro generates, and the
+    // documented expansion of auto_flush_from! is a hand-written thread_local holding it: update every leaf through the inner
+    // struct's field path, flush once through the inner struct and, after a second round of updates, once through a handle
+    if d.auto_flush {
+        s.push_str("    INNER.with(|m| {\n");
+        for (i, leaf) in lv.iter().enumerate() {
+            let n = (i + 1) as u64;
+            let fields: Vec<String> = leaf.iter().enumerate().map(|(li, vi)| format!(".{}", d.labels[li].values[*vi].ident)).collect();
+            s.push_str(&format!("        m{}{};\n", fields.join(""), upd(format!("{}u64", n * 1_000_000_000))));
+        }
+        s.push_str("        m.flush();\n    });\n");
+        s.push_str("    INNER.with(|m| {\n");
+        for (i, leaf) in lv.iter().enumerate() {
+            let n = (i + 1) as u64;
+            let fields: Vec<String> = leaf.iter().enumerate().map(|(li, vi)| format!(".{}", d.labels[li].values[*vi].ident)).collect();
+            s.push_str(&format!("        m{}{};\n", fields.join(""), upd(format!("{}u64", n * 1_000_000_000))));
+        }
+        s.push_str("    });\n    INNER_HANDLE.flush();\n");
+        paths_used += 2;
+    }
     // expected children
     s.push_str("    let mut expected: std::collections::BTreeMap<Vec<(String, String)>, f64> = std::collections::BTreeMap::new();\n");
     s.push_str("    let mut leaves_of: std::collections::BTreeMap<Vec<(String, String)>, u64> = std::collections::BTreeMap::new();\n");
@@ -326,6 +348,9 @@ pub fn emit_module(d: &Decl) -> String {
             total += n * 1000;
         }
         total += n * 1_000_000;
+        if d.auto_flush {
+            total += 2 * n * 1_000_000_000;
+        }
         let lit: Vec<String> = pairs.iter().map(|(k, v)| format!("({}.to_string(), {}.to_string())", rust_str(k), rust_str(v))).collect();
         s.push_str(&format!("    *expected.entry(vec![{}]).or_insert(0.0) += {}f64;\n", lit.join(", "), total));
         s.push_str(&format!("    *leaves_of.entry(vec![{}]).or_insert(0) += 1;\n", lit.join(", ")));
@@ -577,7 +602,7 @@ impl Property for C19 {
          vector. A batch of declarations is written as one crate (one module each) with a generated driver per declaration, built \
          against the working tree and run. Oracle: the backing vector has exactly one child per declared leaf, labelled with the \
          declared value strings, whose value is the sum of the leaf-unique updates made through the field path, the get(enum) chain \
-         and the try_get(str) chain of that leaf (auto-flush form: and the field path used and flushed from a second thread); aliased \
+         and the try_get(str) chain of that leaf (auto-flush form: and the field path used and flushed from a second thread, and the field path of the per-thread inner struct in a hand-written thread_local, flushed through that struct and through a handle built on it); aliased \
          leaves share one child; try_get of undeclared strings is None; after flush no local data remains; a \
          declaration that does not compile is a failure. Non-trivial: >= 2 labels with >= 2 values, an enum or renamed value, and a \
          permuted vector label order. Distinct = distinct declarations."
